@@ -1130,10 +1130,10 @@ Proof. destruct a as [[k c] ad]; cbn. now rewrite !Nat.eqb_refl. Qed.
 
 Lemma entry_eqb_refl e : entry_eqb e e = true.
 Proof.
-  unfold entry_eqb. rewrite oid_eqb_refl. unfold kids_eqb, attrs_eqb.
+  unfold entry_eqb. rewrite (list_eqb_refl _ Nat.eqb_refl). unfold kids_eqb, attrs_eqb.
   rewrite (list_eqb_refl _ oid_eqb_refl), str_eqb_refl, (list_eqb_refl _ attr_eqb_refl).
   destruct (e_priv e) as [[p l]|]; cbn; [|reflexivity].
-  rewrite oid_eqb_refl. apply (list_eqb_refl _ oid_eqb_refl).
+  rewrite (list_eqb_refl _ Nat.eqb_refl). apply (list_eqb_refl _ oid_eqb_refl).
 Qed.
 
 Lemma sig_eqb_refl s : sig_eqb s s = true.
